@@ -58,7 +58,10 @@
 // states after batch 1, with frontier + journal, and at the end of a gated run; plain restart,
 // fail-over restart replaying the rest under NEW, fresh instance — ordinary oracle.  The sync
 // cluster scenario additionally gives the latest records of its first units mtimes 10 s ahead
-// of the later ones (records committed by a host with a fast clock).
+// of the later ones (records committed by a host with a fast clock), and two in three of them
+// start era 1 a few units below 10^k (k = 3…9, own PRNG stream): units committed into different
+// slots end on both sides of the power of ten, and the earlier slots keep records with a larger
+// leading digit but a smaller value.
 //
 // Oracle (bisweep.Judge), per DESIGN C14: resume offset R of every start ∈ {unit ends} ∪ {stream
 // start}; every unit ending at or before R is committed (complete target transaction: all business
